@@ -1,7 +1,7 @@
 # contracts -- sidecar contracts on the real pyscsi functions (the repository is never edited for them)
 import importlib
 
-MODULES = ["converter", "cdb_commands", "cdb_codec", "opcodes", "device", "sense", "facade", "attach", "readwrite", "isolation", "termination", "datain", "dataout", "roundtrip", "enums", "bindings"]
+MODULES = ["converter", "cdb_commands", "cdb_codec", "opcodes", "device", "sense", "facade", "attach", "readwrite", "isolation", "termination", "datain", "dataout", "roundtrip", "enums", "bindings", "liststep"]
 
 
 def load_all():
